@@ -116,6 +116,35 @@ Proof.
   split; [apply decode_representable, Hb|apply bits_int_roundtrip, Hb].
 Qed.
 
+(* (3) and (1') composed: every (x, v) that step returns is a requested
+   output with a representable value v whose encoding is exactly the bits of
+   x in the assignment a' that satisfies the relation, i.e. the integers step
+   returns, written back into the bits, are a' on the output bits *)
+Theorem C13_step_outputs_written_back :
+  forall n restrict, restrict_agrees n restrict -> restrict_support n restrict ->
+  forall ly out_vars r order,
+  layout_ok n ly -> (forall x, In x out_vars -> x < List.length ly) ->
+  forall state,
+  order_ok n r (list_bits ly out_vars) order ->
+  state_ok ly out_vars state ->
+  let a := assign_bitvectors n ly state in
+  (exists b, agree_out (list_bits ly out_vars) a b /\ r b = true) ->
+  let a' := apply_functions (functions n restrict ly out_vars r order) a in
+  r a' = true /\
+  forall x v, In (x, v) (step n restrict ly out_vars r order state) ->
+    In x out_vars /\ representable (var_type ly x) v /\
+    firstn (nbits (var_type ly x)) (encode (var_type ly x) v)
+    = read_bits a' (var_bits ly x).
+Proof.
+  intros n restrict RA RS ly out_vars r order LY OV state OO SO a EX a'.
+  destruct (C13_step_correct n restrict RA RS ly out_vars r order LY OV state OO SO EX)
+    as (R & _ & E).
+  split; [exact R|]. intros x v I. fold a a' in E. rewrite E in I.
+  apply in_map_iff in I. destruct I as (y & Eq & Iy). injection Eq as <- <-.
+  split; [exact Iy|].
+  exact (C13_step_outputs_encode_back n ly y a' LY (OV y Iy)).
+Qed.
+
 (* the same when compute_bdds executes the program emitted for a well-formed
    DAG whose references denote the extracted functions AT EVERY ASSIGNMENT OF
    THE n DECLARED BITS (this link between the manager's DAG and the function
@@ -341,35 +370,6 @@ Proof.
     apply denotes_b_spec. vm_compute. reflexivity.
 Qed.
 
-(* non-vacuity of the renamed emitter: the DAG of the examples above emitted
-   with renaming = {"x": "bitvectors[""v""][0]", "y": ...} (node.var = "x" for
-   bit 0, "y" for bit 1), as dumps_bdds_as_code does *)
-Definition ex_ren : list (string * string) :=
-  [("x", "bitvectors[""v""][0]"); ("y", "bitvectors[""v""][1]")]%string.
-Definition ex_rnames : list string :=
-  ["bitvectors[""v""][0]"; "bitvectors[""v""][1]"]%string.
-Example C13_emitter_renamed_instance :
-  exists syc,
-    lang_syntax "c" languages = Some syc /\
-    forallb (code_ok ex_rnames syc oname)
-      (dumps_bdd_as_code 2 ex_dag [(0, (-5)%Z); (1, 5%Z)]) = true /\
-    cg_dumps_bdd_as_code (dag_term ex_dag) (dag_neg ex_dag) (dag_low ex_dag)
-      (dag_high ex_dag) (dag_var ex_dag ["x"; "y"]%string) (dag_succ ex_dag) 3
-      (map (root_name oname) [(0, (-5)%Z); (1, 5%Z)]) "c" (Some ex_ren)
-    = Some (render syc ex_rnames oname
-              (dumps_bdd_as_code 2 ex_dag [(0, (-5)%Z); (1, 5%Z)])) /\
-    (* the renaming sends every node's variable to the expression that
-       stands for the bit it tests *)
-    forallb (fun e => i_term (snd e) ||
-       String.eqb
-         (dict_get_default ex_ren (dag_var ex_dag ["x"; "y"]%string (fst e))
-            (dag_var ex_dag ["x"; "y"]%string (fst e)))
-         (bitname ex_rnames (i_var (snd e)))) ex_dag = true.
-Proof.
-  eexists. split; [vm_compute; reflexivity|].
-  repeat split; vm_compute; reflexivity.
-Qed.
-
 (* regression examples for the defects repaired by fixes/F4.patch: with the
    old int_to_bits, x = -3 under the hint -3..3 decoded to +1 *)
 Example C13_refuted_neg_old_code :
@@ -573,6 +573,52 @@ Proof.
   split; [vm_compute; reflexivity|]. repeat split; vm_compute; reflexivity.
 Qed.
 
+(* non-vacuity of the renamed emitter THROUGH the theorem: the DAG of the
+   examples above emitted in C with renaming = {"x": bitvectors["v"][0],
+   "y": bitvectors["v"][1]} (node.var = "x" for bit 0, "y" for bit 1), as
+   dumps_bdds_as_code does; every hypothesis of
+   C13_emitter_is_translated_code_renamed is discharged *)
+Definition ex_ren : list (string * string) :=
+  [("x", "bitvectors[""v""][0]"); ("y", "bitvectors[""v""][1]")]%string.
+Definition ex_rnames : list string :=
+  ["bitvectors[""v""][0]"; "bitvectors[""v""][1]"]%string.
+Example C13_emitter_renamed_instance :
+  exists syc,
+    lang_syntax "c" languages = Some syc /\
+    cg_dumps_bdd_as_code (dag_term ex_dag) (dag_neg ex_dag) (dag_low ex_dag)
+      (dag_high ex_dag) (dag_var ex_dag ["x"; "y"]%string) (dag_succ ex_dag) 3
+      (map (root_name oname) [(0, (-5)%Z); (1, 5%Z)]) "c" (Some ex_ren)
+    = Some (render syc ex_rnames oname
+              (dumps_bdd_as_code 2 ex_dag [(0, (-5)%Z); (1, 5%Z)])).
+Proof.
+  destruct (assoc_langs "c" languages) as [tbl|] eqn:A;
+    [|vm_compute in A; discriminate].
+  destruct (syntax_of tbl) as [sy|] eqn:S.
+  2:{ vm_compute in A. injection A as <-. vm_compute in S. discriminate. }
+  exists sy. split.
+  { rewrite lang_syntax_assoc, A. exact S. }
+  eapply (C13_emitter_is_translated_code_renamed _ _ _ _ _ _
+            ex_dag ex_rnames ex_ren tbl sy S).
+  - vm_compute in A. injection A as <-. vm_compute in S. injection S as <-.
+    cbn. repeat split; discriminate.
+  - intros u i F.
+    unfold dag_term, dag_neg, dag_low, dag_high, dag_succ, dag_var.
+    unfold ex_dag in *. cbn [find_info] in *.
+    repeat (match type of F with
+            | context [Z.eqb ?k u] => destruct (Z.eqb_spec k u) as [<-|]
+            end;
+            [injection F as <-; cbn; repeat split; try discriminate;
+             try reflexivity; intros; try discriminate|]).
+    discriminate.
+  - exact A.
+  - reflexivity.
+  - vm_compute; reflexivity.
+  - intros r [<-|[<-|[]]]; eexists;
+      (split; [vm_compute; reflexivity|right; cbn; lia]).
+  - vm_compute in A. injection A as <-. vm_compute in S. injection S as <-.
+    vm_compute. reflexivity.
+Qed.
+
 Print Assumptions C13_int_bits_roundtrip.
 Print Assumptions C13_straightline_correct.
 Print Assumptions C13_latches_assigned_once.
@@ -597,3 +643,7 @@ Print Assumptions C13_bits_int_roundtrip.
 Print Assumptions C13_step_outputs_encode_back.
 Print Assumptions C13_assign_bitvectors_length.
 Print Assumptions C13_emitter_is_translated_code_renamed.
+Print Assumptions C13_step_outputs_written_back.
+Print Assumptions C13_step_through_program_instance.
+Print Assumptions C13_emitter_renamed_instance.
+Print Assumptions C13_translated_instance.
